@@ -139,6 +139,19 @@ def build_pool(fam, rng):
             o2 = [c for c in d2.children if c.name == 'order'][-1]
             o2.children.append(D.N(D.EXT, 'probe', list(attrs), text=text, meta={'wild': True}))
             pool.append((name, D.render_doc(d2, fam, prefixes=prefixes), d2))
+    if fam == 'shop':
+        # an unprefixed xsi:type value resolves with the default namespace in scope: the same text means another name in
+        # another document (default namespace = the schema's namespace: valid; no default namespace: not found)
+        for _ in range(40):
+            doc = D.GENERATORS[fam](rng)
+            if any(n.meta.get('xsi_type') and any(a[2] == 's:Company' for a in n.attrs) for _, n in doc.walk()):
+                break
+        else:
+            return pool
+        for _, n in doc.walk():
+            n.attrs = [(a[0], a[1], 'Company') if (a[0] == D.XSI and a[1] == 'type' and a[2] == 's:Company') else a for a in n.attrs]
+        pool.append(('xsitype_unprefixed_default_ns', D.render_doc(doc, fam, prefixes={D.SHOP: '', D.EXT: 'e'}), doc))
+        pool.append(('xsitype_unprefixed_no_default_ns', D.render_doc(doc, fam, prefixes={D.SHOP: 'q', D.EXT: 'e'}), doc))
     return pool
 
 
